@@ -90,14 +90,16 @@ AlphaNZ == SubSeq(Alpha, 2, 6)
 \* amplitude alphabets (power = amplitude^2).  Set 1 is integral (used where the solver's
 \* zero-forcing filter multiplies magnitudes: 32-bit integers), set 2 has halves.
 AmpSets == << << <<1, 1>>, <<2, 1>>, <<3, 1>> >>,
-              << <<1, 1>>, <<1, 2>>, <<2, 1>>, <<3, 2>>, <<3, 1>> >> >>
+              << <<1, 1>>, <<1, 2>>, <<2, 1>>, <<3, 2>>, <<3, 1>>, <<1, 2>>, <<2, 1>>, <<0, 1>> >> >>   \* incl. a ZERO path loss
 PaSets  == << << <<1, 1>>, <<2, 1>> >>,
               << <<1, 1>>, <<2, 1>>, <<1, 2>>, <<3, 2>> >> >>
 PeSet   == << <<1, 1>>, <<0, 1>>, <<1, 2>>, <<2, 1>>, <<3, 2>> >>      \* <<1,1>> = the default argument
 ScSet   == << <<2, 0, 1>>, <<-1, 0, 3>>, <<0, 1, 1>>, <<1, 1, 2>>, <<-3, 0, 2>> >>   \* 2, -1/3, i, (1+i)/2, -3/2
 GaSet   == << <<1, 2>>, <<2, 1>>, <<3, 1>> >>                          \* channel gain factors (amplitude) of the twin case
-NoiseTags == <<"none", "zero", "half">>
-NoiseVar(t) == IF t = "half" THEN <<1, 2>> ELSE RZero       \* None and 0 add nothing
+\* noise variance: None, 0, 1/2 and the integral values 1, 2 (the harness hands integral values over as Python int,
+\* numpy integer, float32, float64 in turn: the demanded value depends on the NUMBER, not on its representation)
+NoiseTags == <<"none", "zero", "half", "one", "two">>
+NoiseVar(t) == IF t = "half" THEN <<1, 2>> ELSE IF t = "one" THEN <<1, 1>> ELSE IF t = "two" THEN <<2, 1>> ELSE RZero   \* None and 0 add nothing
 PwKinds == <<"vec", "scalar", "none">>                      \* how the solver's P setter is fed
 FreshOp == [kind |-> "fresh", pl |-> "set", pw |-> "ctor"]
 
@@ -122,7 +124,7 @@ MkFrom(g, x0, unz, plOn) ==
       s  == Str(x0, oX + 5)
       am == AmpSets[g.amps]
       pw == PaSets[g.amps]
-  IN [ id |-> <<0, 0>>, chain |-> <<>>, step |-> 0, op |-> FreshOp,
+  IN [ id |-> <<0, 0>>, chain |-> <<>>, step |-> 0, op |-> FreshOp, scr |-> <<>>,
        K |-> K, nr |-> g.nr, nt |-> g.nt, ns |-> g.ns, nte |-> g.nte, jp |-> g.jp,
        H  |-> [i \in 1..RR |-> [j \in 1..C |-> Alpha[Pk(s, (i - 1) * C + j, 6)]]],
        F  |-> [k \in 1..K |-> [a \in 1..(IF g.jp THEN T ELSE g.nt[k]) |-> [b \in 1..g.ns[k] |->
@@ -133,7 +135,7 @@ MkFrom(g, x0, unz, plOn) ==
        pa |-> [k \in 1..K |-> pw[Pk(s, oP + k, Len(pw))]],
        pl |-> IF ~plOn /\ Pk(s, oX + 1, 3) = 1 THEN <<>>
               ELSE [k \in 1..K |-> [j \in 1..(K + Ke) |-> am[Pk(s, oL + (k - 1) * (K + Ke) + j, Len(am))]]],
-       noise |-> NoiseTags[Pk(s, oX + 2, 3)], nsc |-> ROne,
+       noise |-> NoiseTags[Pk(s, oX + 2, 5)], nsc |-> ROne,
        pe |-> IF Ke = 0 THEN ROne ELSE PeSet[Pk(s, oX + 3, Len(PeSet))],
        sc |-> ScSet[Pk(s, oX + 4, Len(ScSet))],
        ga |-> GaSet[Pk(s, oX + 5, Len(GaSet))] ]
@@ -149,7 +151,7 @@ MkExh(n) ==
       s  == Str(Start(0, n), 13)
       am == AmpSets[2]
       pw == PaSets[2]
-  IN [ id |-> <<0, n>>, chain |-> <<>>, step |-> 0, op |-> FreshOp,
+  IN [ id |-> <<0, n>>, chain |-> <<>>, step |-> 0, op |-> FreshOp, scr |-> <<>>,
        K |-> 2, nr |-> <<1, 1>>, nt |-> <<1, 1>>, ns |-> <<1, 1>>, nte |-> <<>>, jp |-> FALSE,
        H  |-> << <<Alpha[(hd % 6) + 1], Alpha[((hd \div 6) % 6) + 1]>>,
                  <<Alpha[((hd \div 36) % 6) + 1], Alpha[((hd \div 216) % 6) + 1]>> >>,
@@ -247,6 +249,23 @@ SolOf(c) ==
                IN IF ~PowValid(c, pt) THEN NoSol
                   ELSE [ok |-> TRUE, sinr |-> SinrOfPow(c, pt), det |-> [k \in 1..c.K |-> HeqDet(c, FF, k)]]
 
+(* Frame conditions every replayed step owes (notes/CALL_DISCIPLINE.md).  They are laws about CALLS, not about
+   values, so TLC cannot evaluate them; the specification names the ones a step requires, emits the names with
+   the step and the harness refuses to run a step whose required set it does not implement.
+     ArgumentsUnchanged       every array / list handed to a call is bit-identical afterwards (any memory layout)
+     EarlierResultsUnchanged  a value returned earlier is not altered by later calls on the same or another object
+     ResultsAreCopies         writing into a returned value does not change what the object reports next
+     QueryIsPure              calc_* / get_* leave the later behaviour of the object unchanged
+     RepresentationIrrelevant the demanded value is a function of the NUMBERS handed over: Python int, numpy
+                              integer, float32, float64, 0 / 0.0 / -0.0, C / Fortran / strided / read-only arrays
+     BystanderUnaffected      a second channel / solver object in the same process reports what it reported before
+     RejectedChangesNothing   a call refused with an exception leaves the object as it was (chains)
+     AliasCoherent            see the aliasing probes (scribble leaves)                                              *)
+Required(c) ==
+  <<"ArgumentsUnchanged", "EarlierResultsUnchanged", "ResultsAreCopies", "QueryIsPure", "RepresentationIrrelevant">>
+  \o (IF c.chain # <<>> THEN <<"BystanderUnaffected", "RejectedChangesNothing">> ELSE <<>>)
+  \o (IF c.op.kind = "scribble" THEN <<"AliasCoherent">> ELSE <<>>)
+
 (* everything the harness compares with the real code *)
 \* determinant of a 1 x 1 / 2 x 2 matrix over one common denominator (fraction free: 32-bit integers)
 Lcm(a, b) == (a \div Gcd(a, b)) * b
@@ -267,7 +286,8 @@ OutOf(c, pt) ==
        B |-> BTab(c, FF),
        qtr |-> [k \in 1..c.K |-> GRe(MTrace(q[k]))],
        qdet |-> [k \in 1..c.K |-> GRe(Det2(q[k]))],
-       sol |-> SolOf(c) ]
+       sol |-> SolOf(c),
+       req |-> Required(c) ]
 
 (* ------------------------------ (2) the algebra of the code ------------------------------------ *)
 AAmp(c, k, j)  == IF Dev.PathlossIgnored THEN ROne ELSE Amp(c, k, j)
@@ -390,6 +410,38 @@ ChainAttempt(prev, hi, n, s) == IF Chains[hi].ops[s] = "power"
                                 THEN LET c == PowerCase(prev, hi, n, s) IN [c |-> c, pt |-> PowTab(c, FullF(c), c.U, c.pe), ok |-> TRUE]
                                 ELSE FirstValid(prev, hi, n, s, 0)
 
+(* ----- aliasing probes.  The arrays handed to set_pathloss / init_from_channel_matrix are kept by reference.
+   After a chain step the caller tries to WRITE one entry of such an array in place.  Admissible outcomes:
+   the write is refused (read-only array; nothing changes - the values of the step itself stay demanded), or
+   it is accepted and then the object must behave, in every view and every SINR / Q, as if it had been set up
+   with the modified array (`AliasCoherent`); anything in between (reports the new path loss, computes with
+   the old one) is a violation.  The probe is a LEAF of the chain: it carries the values demanded in the
+   "accepted" alternative; the harness undoes an accepted write afterwards and the chain continues from
+   the step itself.                                                                                   *)
+Other(seq, cur, i) == LET x == seq[((i - 1) % Len(seq)) + 1] IN IF x # cur THEN x ELSE seq[(i % Len(seq)) + 1]
+ScribbleCase(prev, n) ==
+  LET st   == Str(Start(200 + prev.chain[1], n * 16 + prev.step), 4)
+      onPl == prev.pl # <<>> /\ n % 2 = 0
+      am   == AmpSets[Chains[prev.chain[1]].parts[1].amps]
+      k    == Pk(st, 1, prev.K)
+      j    == Pk(st, 2, IF onPl THEN prev.K + Len(prev.nte) ELSE Len(prev.H[1]))
+      i    == Pk(st, 1, Len(prev.H))
+  IN  [prev EXCEPT !.id = <<200 + prev.chain[1], n * 16 + prev.step>>,
+                   !.pl = IF onPl THEN [prev.pl EXCEPT ![k][j] = Other(am, prev.pl[k][j], st[3])] ELSE prev.pl,
+                   !.H  = IF onPl THEN prev.H ELSE [prev.H EXCEPT ![i][j] = Other(Alpha, prev.H[i][j], st[3])],
+                   !.op = [kind |-> "scribble", pl |-> IF onPl THEN "pl" ELSE "H", pw |-> "keep"],
+                   !.scr = IF onPl THEN <<k, j>> ELSE <<i, j>>]
+ChainLeaf == /\ inp # NoCase
+             /\ inp.chain # <<>>
+             /\ inp.op.kind \in {"init", "reinit"}
+             /\ (inp.chain[2] + inp.step) % 2 = 0
+             /\ LET c  == ScribbleCase(inp, inp.chain[2])
+                    pt == PowTab(c, FullF(c), c.U, c.pe)
+                IN  /\ PowValid(c, pt)
+                    /\ inp' = c
+                    /\ out' = OutOf(c, pt)
+                    /\ UNCHANGED cache
+
 \* what the caches of the real objects hold after the step (readers fill them)
 CacheAfter(c) ==
   [ pa   |-> IF c.op.kind = "power" /\ c.op.pw = "none" /\ Dev.PowerNoneKeepsCaches THEN cache.pa ELSE c.pa,
@@ -403,9 +455,10 @@ Step(a) ==
 ChainStart == \E hi \in HLo..HHi : \E n \in Lo..Hi : inp = NoCase /\ Step(ChainAttempt(inp, hi, n, 1))
 ChainStep  == /\ inp # NoCase
               /\ inp.chain # <<>>
+              /\ inp.op.kind # "scribble"
               /\ inp.step < Len(Chains[inp.chain[1]].ops)
               /\ Step(ChainAttempt(inp, inp.chain[1], inp.chain[2], inp.step + 1))
-Next == PickExhaustive \/ PickSeeded \/ ChainStart \/ ChainStep
+Next == PickExhaustive \/ PickSeeded \/ ChainStart \/ ChainStep \/ ChainLeaf
 
 Emit == EmitCase([inp |-> inp', out |-> out'])
 
